@@ -189,7 +189,7 @@ fn cli_pair(bin: &std::path::Path, case: &Case, rf: &crate::refmodel::RefOut, t:
         // compare the plain reports number by number
         let rep = |s: &str| -> String { s.split("** Eficiencia energética").nth(1).unwrap_or("").to_string() };
         let (a, b) = (rep(&r1.stdout), rep(&r2.stdout));
-        if a.is_empty() || !cli::reports_equal(&a, &b, report_slack(rf)) {
+        if a.is_empty() || !cli::reports_equal(&comparable_report(a.trim(), rf), &comparable_report(b.trim(), rf), report_slack(rf)) {
             t.violation("C08.cli_report_changes", "the report printed with simplified factors differs from the one printed with -F".into(), || {
                 let mut w = wit();
                 w["report_default"] = json!(a);
